@@ -31,18 +31,19 @@ type B struct {
 	Index    int
 	Only     int // >=0: replay exactly this case of the batch
 
-	mu           sync.Mutex
-	evals        int64
-	classes      map[string]int64
-	counters     map[string]int64
-	samples      []interface{}
-	sampleKeys   map[string]bool
-	violations   []Violation
-	sigCount     map[string]int
-	inconclusive []string
-	curCase      int
-	start        time.Time
-	cutShort     bool
+	mu            sync.Mutex
+	evals         int64
+	classes       map[string]int64
+	counters      map[string]int64
+	samples       []interface{}
+	sampleKeys    map[string]bool
+	violations    []Violation
+	sigCount      map[string]int
+	inconclusive  []string
+	inconclusiveN int
+	curCase       int
+	start         time.Time
+	cutShort      bool
 	// Boost multiplies the quick-tier counts of checks whose cases are very cheap.
 	Boost int
 }
@@ -77,6 +78,16 @@ func (b *B) N(quick, thorough int) int {
 			t = thorough
 		}
 		return t
+	}
+	return q
+}
+
+// NQ is the quick-tier count in both tiers: the inner bound of nested loops whose outer bound
+// already grows with the tier (otherwise the thorough tier would be 144 times the quick one).
+func (b *B) NQ(quick int) int {
+	q := quick * QuickScale
+	if b.Boost > 1 {
+		q *= b.Boost
 	}
 	return q
 }
@@ -176,6 +187,7 @@ func (b *B) Violate(caseIdx int, sig, what string, detail map[string]interface{}
 // Inconclusive records that part of the batch could not be judged.
 func (b *B) Inconclusive(format string, a ...interface{}) {
 	b.mu.Lock()
+	b.inconclusiveN++
 	if len(b.inconclusive) < 20 {
 		b.inconclusive = append(b.inconclusive, fmt.Sprintf(format, a...))
 	}
@@ -184,15 +196,16 @@ func (b *B) Inconclusive(format string, a ...interface{}) {
 
 // Result is what a worker hands back to the parent.
 type Result struct {
-	Batch        int              `json:"batch"`
-	Evals        int64            `json:"evals"`
-	Classes      map[string]int64 `json:"classes"`
-	Counters     map[string]int64 `json:"counters"`
-	Samples      []interface{}    `json:"samples"`
-	Violations   []Violation      `json:"violations"`
-	SigCount     map[string]int   `json:"sig_count"`
-	Inconclusive []string         `json:"inconclusive"`
-	Done         bool             `json:"done"`
+	Batch         int              `json:"batch"`
+	Evals         int64            `json:"evals"`
+	Classes       map[string]int64 `json:"classes"`
+	Counters      map[string]int64 `json:"counters"`
+	Samples       []interface{}    `json:"samples"`
+	Violations    []Violation      `json:"violations"`
+	SigCount      map[string]int   `json:"sig_count"`
+	Inconclusive  []string         `json:"inconclusive"`
+	InconclusiveN int              `json:"inconclusive_n"`
+	Done          bool             `json:"done"`
 }
 
 // Result snapshots the collector.
@@ -200,7 +213,7 @@ func (b *B) Result() Result {
 	b.mu.Lock()
 	defer b.mu.Unlock()
 	return Result{Batch: b.Index, Evals: b.evals, Classes: b.classes, Counters: b.counters, Samples: b.samples,
-		Violations: b.violations, SigCount: b.sigCount, Inconclusive: b.inconclusive, Done: true}
+		Violations: b.violations, SigCount: b.sigCount, Inconclusive: b.inconclusive, InconclusiveN: b.inconclusiveN, Done: true}
 }
 
 // JSON renders any value for a replay/sample (never fails).
